@@ -167,6 +167,59 @@ def run(ctx):
             m = tok_re.match(sm)
             ok = m is not None and m.end() == len(sm) and m.lastgroup == typ
             ctx.ob("C15.R4", R + ":tokenize", "%s shape %r (a form str() produces) lexes as one %s token" % (typ, sm, typ), ok, construct="%s:%s" % (typ, sm), detail="lexed %r as %s" % (m.group(0) if m else None, m.lastgroup if m else None))
+    # ---- R11 names ---------------------------------------------------------
+    ctx.rule("C15.R11", "every name a front-end can give a function, variable or value (identifier: letter or underscore, then letters, digits, underscores) is lexed by the reader as one ID token", floor=6)
+    def id_sets(pattern):
+        """(first characters, following characters) of a regex of the form [..][..]*  - None when it has another form"""
+        import re._parser as sp
+        try:
+            t = list(sp.parse(pattern))
+        except Exception:
+            return None
+        def cls(item):
+            op, av = item
+            out = set()
+            if str(op) == "LITERAL":
+                return {chr(av)}
+            if str(op) != "IN":
+                return None
+            for o, a in av:
+                if str(o) == "LITERAL":
+                    out.add(chr(a))
+                elif str(o) == "RANGE":
+                    out |= {chr(c) for c in range(a[0], a[1] + 1)}
+                elif str(o) == "CATEGORY" and str(a) == "CATEGORY_DIGIT":
+                    out |= set("0123456789")
+                else:
+                    return None
+            return out
+        if len(t) != 2 or str(t[1][0]) != "MAX_REPEAT":
+            return None
+        lo, hi, sub = t[1][1]
+        sub = list(sub)
+        if lo != 0 or len(sub) != 1:
+            return None
+        a, b = cls(t[0]), cls(sub[0])
+        return None if a is None or b is None else (a, b)
+    rd = id_sets(pats.get("ID", ""))
+    ctx.need(rd is not None, "tokenize: the ID pattern is not of the form [first][rest]*")
+    import string
+    want_first, want_rest = set(string.ascii_letters + "_"), set(string.ascii_letters + string.digits + "_")
+    ctx.ob("C15.R11", R + ":tokenize", "an ID may start with any letter or an underscore (C identifiers such as _start, wasm helpers such as _run_init)", want_first <= rd[0], construct="id-first", detail="missing: %s" % "".join(sorted(want_first - rd[0])))
+    ctx.ob("C15.R11", R + ":tokenize", "an ID continues with letters, digits and underscores", want_rest <= rd[1], construct="id-rest", detail="missing: %s" % "".join(sorted(want_rest - rd[1])))
+    for sm in ("_run_init", "_x", "__main__", "a_1", "X9", "main_foo", "L", "e5"):
+        m = tok_re.match(sm)
+        ok = m is not None and m.end() == len(sm) and m.lastgroup == "ID"
+        ctx.ob("C15.R11", R + ":tokenize", "the name %r lexes as one ID token" % sm, ok, construct="ID:" + sm, detail="lexed %r as %s" % (m.group(0) if m else None, m.lastgroup if m else None))
+    for rel in ("ppci/lang/c3/lexer.py", "ppci/lang/pascal/lexer.py"):
+        mod = project.modules.get(rel)
+        if mod is None:
+            continue
+        for c in ast.walk(mod.tree):
+            if isinstance(c, ast.Constant) and isinstance(c.value, str) and c.value.startswith("[") and c.value.endswith("]*"):
+                fs = id_sets(c.value)
+                if fs and "a" in fs[0]:
+                    ctx.ob("C15.R11", R + ":tokenize", "covers the identifiers of %s (%s)" % (rel, c.value), fs[0] <= rd[0] and fs[1] <= rd[1], construct="covers:" + rel, detail="missing first %s rest %s" % ("".join(sorted(fs[0] - rd[0])), "".join(sorted(fs[1] - rd[1]))))
     # ---- R5 order ----------------------------------------------------------
     for cname in ("Store", "CJump", "Binop", "Load", "Cast", "Alloc", "Unop", "Jump", "Return"):
         cls = ctx.cls(IR, cname)
